@@ -6,6 +6,7 @@ import (
 	"fmt"
 	"io"
 	"net"
+	"os"
 	"runtime/debug"
 	"strings"
 	"sync"
@@ -433,6 +434,18 @@ func shapeOf(res *result, cls int, at int) string {
 	if sentMF {
 		peerMF = fmt.Sprint(o.maxFrame)
 	}
+	// number of client frames between the latest SETTINGS ACK and the event: a small
+	// number after a lowering change points at the apply/ack-vs-write race
+	sinceAck := "none"
+	for i, n := at-1, 0; i >= 0 && i < len(res.log); i-- {
+		if e := &res.log[i]; e.C {
+			if e.Type == ftSettings && e.has(flagAck) {
+				sinceAck = fmt.Sprint(n)
+				break
+			}
+			n++
+		}
+	}
 	switch cls {
 	case clsFrameTooLarge:
 		ft := "other"
@@ -449,11 +462,11 @@ func shapeOf(res *result, cls int, at int) string {
 				ft = "CONTINUATION"
 			}
 		}
-		return fmt.Sprintf("frame=%s,caller-maxframe=%s,peer-maxframe=%s,lowered=%v", ft, cmf, peerMF, o.loweredFrame)
+		return fmt.Sprintf("frame=%s,caller-maxframe=%s,peer-maxframe=%s,lowered=%v,since-ack=%s", ft, cmf, peerMF, o.loweredFrame, sinceAck)
 	case clsStreamWindow, clsConnWindow:
-		return fmt.Sprintf("peer-lowered-initwin=%v,negative-window-before=%v", o.loweredInitWin, o.negWindowSeen)
+		return fmt.Sprintf("peer-lowered-initwin=%v,negative-window-before=%v,since-ack=%s", o.loweredInitWin, o.negWindowSeen, sinceAck)
 	case clsTooManyStreams:
-		return fmt.Sprintf("strict=%v,peer-lowered-maxstreams=%v,acks=%d", sc.Strict, o.loweredStreams, o.ackEvents)
+		return fmt.Sprintf("strict=%v,peer-lowered-maxstreams=%v,acks=%d,since-ack=%s", sc.Strict, o.loweredStreams, o.ackEvents, sinceAck)
 	case clsStreamStalled:
 		return fmt.Sprintf("caller-initwin=%s", ciw)
 	case clsClientKilledConn, clsConnDropped, clsConnCredit:
@@ -651,6 +664,10 @@ func Run(r *hk.Run, rng *hk.Rand) {
 	}
 	wg.Wait()
 	for _, res := range results {
+		if os.Getenv("C06PEER_DEBUG") != "" {
+			fmt.Fprintf(os.Stderr, "scenario %d %-40s %8.1f ms events=%d viol=%d/%d end=%d quiescent=%v alive=%v errs=%d\n", res.sc.Idx, res.sc.Kind,
+				float64(res.dur.Microseconds())/1000, len(res.log), res.idx, res.cls, len(res.endClasses), res.quiescent, res.connAlive, len(res.reqErrs))
+		}
 		report(r, res)
 	}
 }
